@@ -145,7 +145,8 @@ func runPullRaw(sp sessionSpec, res *sessionResult) error {
 			if d.Fetch && derr == nil {
 				sorted := sortedEntries(ents)
 				for i, e := range sorted {
-					if typeIs(e.mode, sIFREG) {
+					// a hostile client may request any index, e.g. that of a symbolic link
+					if typeIs(e.mode, sIFREG) || typeIs(e.mode, sIFLNK) {
 						c2s.Write(le32(int32(i)))
 						c2s.Write(encHead(sumHead{}))
 					}
